@@ -777,6 +777,15 @@ def _alias_renamed(w, known):
                 continue
             sk_sig = sk[:2] if isinstance(sk, list) else sk
             cand = [n for n in ns if _sig(w, n) is not None and [list(_sig(w, n)[0]), _sig(w, n)[1]] == sk_sig]
+            if not cand and isinstance(sk, list) and len(sk) > 2:
+                # renamed *and* its (private) parameters reordered: same parameter types as a multiset, same result, and the body does
+                # the same things (fingerprint); rules must then find parameters by type / role, not by position
+                perm = [n for n in ns if _sig(w, n) is not None and sorted(_sig(w, n)[0]) == sorted(sk_sig[0]) and _sig(w, n)[1] == sk_sig[1]]
+                fk = set(sk[2])
+                good = [n for n in perm if len(fk & set(_fingerprint(w.bodies[n]))) / max(1, len(fk | set(_fingerprint(w.bodies[n])))) >= 0.6]
+                if len(good) == 1 and not any(p2[1] == good[0] for p2 in pairs):
+                    pairs.append((k, good[0]))
+                    continue
             same_old = [k2 for k2 in ks if (sigs.get(k2) or [None, None])[:2] == sk_sig]
             if len(cand) == 1 and len(same_old) == 1:
                 pairs.append((k, cand[0]))
